@@ -108,11 +108,14 @@ def execute(ch, cfg):
         mk()
         env.process(net.driver(ch, cfg["N"], items, Front()))
     saved = random.uniform
+    saved_random = random.random
     random.uniform = fake_uniform
+    random.random = lambda: fake_uniform(0, 1)
     try:
         err = net.run(10 ** 9)
     finally:
         random.uniform = saved
+        random.random = saved_random
     res.digest = (tuple((a.t, a.flow) for a in net.arrs), tuple(calls), tuple((d.arr.i if d.arr else -1, d.t, d.out) for d in net.deps), err)
     tag = "Wire" if ndir == 1 else "Cable"
     res.ev("C10.noraise")
